@@ -43,6 +43,7 @@ type Run struct {
 	P          *Program
 	Obs        []Obligation
 	Funcs      map[string]bool // functions analysed
+	FuncList   []*ssa.Function
 	CallSites  int
 	Rules      map[string]string // rule -> text
 	NotDec     []string          // clauses not decided
@@ -68,6 +69,9 @@ func (r *Run) Min(rule string, n int) { r.minCount[rule] = n }
 func (r *Run) Touch(fs ...*ssa.Function) {
 	for _, f := range fs {
 		if f != nil {
+			if !r.Funcs[FuncName(f)] {
+				r.FuncList = append(r.FuncList, f)
+			}
 			r.Funcs[FuncName(f)] = true
 		}
 	}
